@@ -128,6 +128,8 @@ def mk(kv, name, hf, info):
         "stubs": kv.get("stubs", ""),
         "witness": kv.get("witness", ""),
         "derived": kv.get("derived", "0") == "1",
+        "fs": kv.get("fs", ""),
+        "replay": kv.get("replay", "native"),
     }
 
 
@@ -176,6 +178,10 @@ def make_overlay(root: Path, crates_needed, use_real_indexmap=False):
         shutil.copy(VERIF / "harness" / "common.rs", dst)
         with open(lib, "a") as f:
             f.write("\n#[cfg(kani)] #[path = \"%s\"] pub mod verif_common;\n" % dst)
+        # the generic Vec stubs in verif_common name the (unstable) Allocator trait; a crate-level
+        # feature attribute has to come first, so lib.rs (only) is shifted down by one line
+        txt = lib.read_text()
+        lib.write_text("#![cfg_attr(kani, feature(allocator_api))]\n" + txt)
     members = ", ".join('"crates/%s"' % c for c in crates_needed)
     patch = []
     if not use_real_indexmap:
@@ -291,7 +297,10 @@ def run_harness(h, overlay: Path, target: Path, logdir: Path, timeout_s, mem_gb,
     # must be last: passed through to CBMC. Field sensitivity for arrays up to 4096 cells (default 64)
     # lets symex constant-propagate through heap objects larger than 64 bytes (measured: without it
     # every table lookup on concrete keys becomes a solver problem).
-    cmd += ["--cbmc-args"] + CBMC_ARGS
+    cbmc_args = list(CBMC_ARGS)
+    if h.get("fs"):
+        cbmc_args = ["--max-field-sensitivity-array-size", str(h["fs"])]
+    cmd += ["--cbmc-args"] + cbmc_args
     lf = logdir / ((h["name"]) + (".playback" if playback else "") + ".log")
     t0 = time.time()
     mem_kb = mem_gb * 1024 * 1024
@@ -449,9 +458,7 @@ def main():
     scratch_base = Path(os.environ.get("VERIF_SCRATCH", "/var/tmp"))
     overlay = scratch_base / ("turmoil-verif.%s.%d" % (pid, os.getpid()))
     logdir = VERIF / "logs" / pid
-    if logdir.exists():
-        shutil.rmtree(logdir)
-    logdir.mkdir(parents=True)
+    logdir.mkdir(parents=True, exist_ok=True)
 
     crates_needed = sorted(set(h["crate"] for h in hs))
     # workspace members: needed crates + their path deps
@@ -502,7 +509,7 @@ def run_all(hs, overlay, logdir, args):
                 # pick first harness that fits in the memory budget
                 pick = None
                 for i, h in enumerate(queue):
-                    need = h["mem_gb"] or 10
+                    need = h["mem_gb"] or 8
                     if need <= mem_budget[0]:
                         pick = i
                         break
@@ -510,7 +517,7 @@ def run_all(hs, overlay, logdir, args):
                     cond.wait(timeout=5)
                     continue
                 h = queue.pop(pick)
-                need = h["mem_gb"] or 10
+                need = h["mem_gb"] or 8
                 mem_budget[0] -= need
             key = (h["crate"], h["features"])
             if key not in targets:
